@@ -5,6 +5,7 @@ MODULE = "DtailModel.Props.C13"
 TIMED_OPS = ("c13.script", "c13.tail", "c13.session")
 GROUPS = ["C13"]
 LOGGER = "none"
+BINS = True
 JOBS = 16
 BUDGET = {"quick": 220, "thorough": 5000}
 TECHNIQUE = "Lean 4 invariant proof over all histories of a labelled transition system + scripted trace acceptance against the real limiter code"
@@ -67,6 +68,10 @@ def gen_session(rng, n):
 
 
 def gen(rng, budget, tier):
+    # the server's own continuous jobs against the tail limit (a real dserver process, about 8 s)
+    yield "c13.jobs 1 2"
+    if tier == "thorough":
+        yield "c13.jobs 2 4"
     yield from gen_tail(rng, TAIL_BUDGET[tier])
     yield from gen_session(rng, 40 if tier == "quick" else 800)
     # the witness of the repaired defect first
@@ -112,12 +117,16 @@ def _oracle_for(case, s):
 
 
 def impl_view(case, impl):
+    if case.startswith("c13.jobs"):
+        return impl.replace(" ", "_")
     if case.startswith("c13.tail"):
         return impl.split(";maxreading=")[0]
     return impl
 
 
 def model_case(case, impl):
+    if case.startswith("c13.jobs"):
+        return case + " " + impl.replace(" ", "_")
     if case.startswith("c13.tail"):
         return case + " " + impl.split(";maxreading=")[1] if ";maxreading=" in impl else None
     return case
